@@ -93,11 +93,40 @@ def run(ctx):
     inlined_vector(ctx, ctx.facts("effects.cpp", "A", ()))
     c_string_terminators(ctx, ctx.facts("effects.cpp", "A", ()))
     stores_one_argument(ctx, ctx.facts("effects.cpp", "A", ()))
+    direct_format_writes_text(ctx, ctx.facts("effects.cpp", "A", ()))
     # a statement with run-time source metadata keeps exactly its message text (= C12.R9: cut at the separators measured on the text
     # as formatted, shortened before it is sanitised)
     from rules import c12
     from rules.c09 import Renamed
     c12.r9_runtime_metadata(Renamed(ctx, "C12.R9", "C04.R10"), core)
+
+
+def direct_format_writes_text(ctx, facts):
+    """R14: DirectFormatCodec formats on the caller and ships the text. The layout rule (R1) decides that the cursor moves by the cached
+    length; this one that the bytes behind the length field are the text: encode calls format_to_n on the cursor, limited to the very
+    length it then advances by, with the argument it was given — before the cursor moves on"""
+    fs = [f for f in facts.fns if f.config == "A" and f.cls and f.cls.startswith("quill::DirectFormatCodec<") and f.base == "encode"]
+    ctx.floor("C04.R14", "DirectFormatCodec<T>::encode instantiations in the witness", len(fs), 1)
+    for f in fs[:4]:
+        g = f.g
+        params = f.rec["params"]
+        buf, argp = params[0]["did"], params[3]["did"]
+        adv = [n for n in f.walk() if n["k"] == "CompoundAssignOperator" and n["op"] == "+=" and var_ref(n["lhs"]) == buf]
+        lens = [var_ref(n["rhs"]) for n in adv if var_ref(n["rhs"]) is not None]
+        calls = f.calls(r"fmtquill::(v\d+::)?format_to_n")
+        ok = bool(calls) and bool(lens)
+        for c in calls:
+            a = c.get("args") or []
+            ok = ok and len(a) >= 4 and any(x["k"] == "DeclRefExpr" and x.get("did") == buf for x in walk(a[0])) and var_ref(a[1]) in lens and \
+                any(x["k"] == "DeclRefExpr" and x.get("did") == argp for x in walk(a[3])) and \
+                any(x["k"] == "StringLiteral" and x.get("str") == "{}" for x in walk(a[2]))
+            # ... written before the cursor leaves the place: between the call and the exit lies the advance by that length
+            last = [p for n in adv if var_ref(n["rhs"]) == var_ref(a[1]) for p in g.positions(n)] if len(a) >= 2 else []
+            ok = ok and bool(last) and not g.exists_path([g.entry_node], last, avoid_nodes=g.positions(c))
+        ctx.ob("C04.R14", "%s::encode:text-written" % f.cls.replace("quill::", "")[:60], ok,
+               "the text is formatted into the queue buffer at the cursor, limited to the cached length the cursor then advances by, from "
+               "the argument itself and the plain \"{}\" template (what the backend later shows is what formatting the argument at the "
+               "call site gives)", fn=f)
 
 
 def matrix_witness():
